@@ -4,7 +4,7 @@ import DendroModel.Theory.C03Leaves
 executes `step` per operation, `run` for whole histories, and the `Heap.*` primitives).
 
 Obligations (every `theorem` directly in `namespace DendroModel.C03` of this file):
-* `step_wf`, `history_wf` — NO SHARING: every operation of the alphabet (all 29 constructors of `Op`) and every finite
+* `step_wf`, `history_wf` — NO SHARING: every operation of the alphabet (all 30 constructors of `Op`, incl. assigning `Tree.seed_node`) and every finite
   history keeps `(ids t).Nodup`, nodes created by the operation included.  This is the part of clause (a) that an
   inductive rose tree does not give for free; "seed parentless / listed once under its parent / edge head and tail"
   are facts about pointers and are proved only where a heap refinement exists (below).  These two theorems say
@@ -632,6 +632,23 @@ theorem spliceL_notin (c : Nat) (f : T → List T) : ∀ (cs : List T), cntL c c
 end
 
 mutual
+theorem find_le (c : Nat) : ∀ (t sub : T), T.find? c t = some sub → ∀ i, cnt i sub ≤ cnt i t
+  | .node j x l s cs, sub, hf, i => by
+      simp only [T.find?] at hf
+      split at hf
+      · injection hf with hf; subst hf; exact Nat.le_refl _
+      · have := findL_le c cs sub hf i; simp; omega
+theorem findL_le (c : Nat) : ∀ (cs : List T) (sub : T), T.findL? c cs = some sub → ∀ i, cnt i sub ≤ cntL i cs
+  | [], sub, hf, i => by simp [T.findL?] at hf
+  | x :: xs, sub, hf, i => by
+      simp only [T.findL?] at hf
+      split at hf
+      · rename_i r hr; injection hf with hf; subst hf
+        have := find_le c x _ hr i; simp; omega
+      · have := findL_le c xs sub hf i; simp; omega
+end
+
+mutual
 theorem find_none_cnt (c : Nat) : ∀ (t : T), T.find? c t = none → cnt c t = 0
   | .node j x l s cs, hf => by
       simp only [T.find?] at hf
@@ -1223,6 +1240,13 @@ theorem step_wf (s s' : St) (op : Op) (h : WF s.t) (hop : op.SubWF) (hs : step s
     simp only [step] at hs
     injection hs with hs; subst hs
     exact wf_of_le h (encodeStruct_le a b s)
+  | setSeed n =>
+    simp only [step] at hs
+    split at hs
+    · cases hs
+    · rename_i sub hf
+      injection hs with hs; subst hs
+      exact wf_of_le h (find_le n s.t sub hf)
   | reorient k mode =>
     simp only [step] at hs
     split at hs
